@@ -46,7 +46,11 @@ def run(ctx):
                 "orders (init/open/enable/threaded/start/ctl/log/fini/re-init, also before the thread is started and "
                 "after it was stopped, failing pthread_create) under random schedules; (c) producer/controller/logging "
                 "thread racing under random schedules with starvation phases; (d) enough 4 KiB messages to exceed the "
-                "512000-byte backlog while the logging thread is starved.  A case is non-trivial if a thread was "
+                "512000-byte backlog while the logging thread is starved; in half of them one or two bursts that exceed the "
+                "limit by a few up to more than a whole backlog of refused messages, then the logging thread drains the "
+                "queue completely or partly, then further small/large messages are logged under a random schedule, then "
+                "fini (oracle: its own count of the queued bytes from the log/write events - a message may stay unwritten "
+                "only if queued + its record > limit).  A case is non-trivial if a thread was "
                 "blocked, the lock was contended, records were dropped, the worker ran during the stop sequence, the "
                 "system was re-initialised, or an operation ran before thread start; distinct by SHA1 of its lines")
     ctx.trusted = ["Lean 4.33 kernel; axioms propext, Classical.choice, Quot.sound",
@@ -63,6 +67,7 @@ def run(ctx):
                        "messages are 8..4095 bytes (QB_LOG_ABSOLUTE_MAX_LEN), one custom target"]
     margs = model_args()
     vlib.lean_prepare(ctx)
+    logtgen.set_consts(os.path.join(vlib.LEAN, "QbVerif", "Gen", "LogThreadConst.lean"))   # the oracle's limit
     ctx.compile_lib(sources=LIB)
     exe = ctx.compile_harness("log/logt_sched.c")
     kw = dict(nontrivial=logtgen.tags, batch=100, timeout=300, model_args=margs, shrink_budget=200)
@@ -80,7 +85,7 @@ def run(ctx):
     streams.append(("orders", [("o%d" % i, logtgen.gen_orders(ctx.rng)) for i in range(n)]))
     streams.append(("racing", [("r%d" % i, logtgen.gen_conc(ctx.rng)) for i in range(n)]))
     nb = ctx.scale(24, 400)
-    lim, rec = logtgen.gen_consts(os.path.join(vlib.LEAN, "QbVerif", "Gen", "LogThreadConst.lean"))
+    lim, rec = logtgen.BACKLOG_LIMIT, logtgen.REC_SIZE
     streams.append(("backlog", [("b%d" % i, logtgen.gen_backlog(ctx.rng, lim, rec)) for i in range(nb)]))
     for name, cases in streams:
         for lo in range(0, len(cases), 5000):
